@@ -87,6 +87,255 @@ theorem stored_rows_have_chunk_width (c : Better) (h : c.Inv) (r : BDoc) (hr : c
   · exact hs.1
   · exact hs.2 row hrow
 
+/-! ### whole histories: a chunk of the schema-aware streaming collector never mixes schemas -/
+
+/-- the samples of every metric chunk in the complete writes of a writer, chunk by chunk -/
+def chunkRows (w : Writer) : List (List Row) :=
+  (w.log.map fun e => match e with
+    | WEntry.full docs => docs.filterMap fun o => match o with
+        | OutDoc.chunk _ _ f r => some (f :: r)
+        | OutDoc.metaDoc _ _ => none
+    | WEntry.partialWrite _ _ => []).flatten
+
+def valsOf (d : BDoc) : Row := (extractDoc d).map (·.1)
+
+/-- all documents of a list have one schema key -/
+def OneKey (ch : List BDoc) : Prop := ∃ k, ∀ d ∈ ch, schemaKey d = k
+
+/-- ghost invariant: the written chunks are `chs`, the pending samples are `cur`, every written chunk
+has one schema key, and the pending documents have the collector's current key -/
+structure G (c : StreamingDynamic) (chs : List (List BDoc)) (cur : List BDoc) : Prop where
+  script : c.s.out.script = []
+  written : chunkRows c.s.out = chs.map (·.map valsOf)
+  pending : c.s.inner.samples = cur.map valsOf
+  one : ∀ ch ∈ chs, OneKey ch
+  key : cur = [] ∨ ∃ k, c.hash = some k ∧ ∀ d ∈ cur, schemaKey d = k
+  nohash : c.hash = none → cur = []
+  inv : c.s.inner.Inv
+
+theorem samples_nil_iff_info (b : Better) (hi : b.Inv) : b.info.2 = 0 ↔ b.samples = [] := by
+  unfold Better.info Better.samples
+  cases hr : b.ref with
+  | none => have := (hi.1 hr).1; simp [this]
+  | some r => simp
+
+/-- the flush of the wrapped streaming collector, in ghost terms -/
+theorem sflush_ghost (s : Streaming) (cur : List BDoc) (hs : s.out.script = []) (hi : s.inner.Inv)
+    (hp : s.inner.samples = cur.map valsOf) :
+    (s.flush).2 = true ∧ (s.flush).1.out.script = [] ∧ (s.flush).1.inner.samples = [] ∧ (s.flush).1.inner.Inv ∧
+    chunkRows (s.flush).1.out = chunkRows s.out ++ (if cur = [] then [] else [cur.map valsOf]) ∧
+    (s.flush).1.maxSamples = s.maxSamples := by
+  unfold Streaming.flush
+  by_cases h0 : s.info.2 = 0
+  · have hs0 : s.inner.samples = [] := (samples_nil_iff_info s.inner hi).1 h0
+    have hc : cur = [] := by
+      rw [hs0] at hp; cases cur with
+      | nil => rfl
+      | cons a t => simp at hp
+    rw [if_pos h0]
+    exact ⟨rfl, hs, hs0, hi, by rw [if_pos hc, List.append_nil], rfl⟩
+  · have hne : s.inner.samples ≠ [] := fun e => h0 ((samples_nil_iff_info s.inner hi).2 e)
+    have hc : cur ≠ [] := by intro e; rw [e] at hp; exact hne hp
+    obtain ⟨r, hr⟩ : ∃ r, s.inner.ref = some r := by
+      cases hx : s.inner.ref with
+      | some r => exact ⟨r, rfl⟩
+      | none => simp [Better.samples, hx] at hne
+    have hsam : s.inner.samples = s.inner.first :: s.inner.rows := by simp [Better.samples, hr]
+    rw [if_neg h0]
+    simp only [Streaming.resolve, Better.resolve, hr]
+    cases hm : s.inner.metadata with
+    | none =>
+      simp only [Writer.write, hs, if_true]
+      refine ⟨trivial, ?_, ?_, ?_, ?_, rfl⟩
+      · simp only [Streaming.reset]; try exact hs
+      · simp [Streaming.reset, Better.reset, Better.samples]
+      · simp only [Streaming.reset]; exact Better.reset_inv _
+      · simp only [Streaming.reset, chunkRows, List.map_append, List.flatten_append, List.map_cons, List.map_nil,
+          List.flatten_cons, List.flatten_nil, List.append_nil, if_neg hc, List.filterMap_cons, List.filterMap_nil]
+        rw [← hsam, hp]
+    | some md =>
+      simp only [Writer.write, hs, if_true]
+      refine ⟨trivial, ?_, ?_, ?_, ?_, rfl⟩
+      · simp only [Streaming.reset]; try exact hs
+      · simp [Streaming.reset, Better.reset, Better.samples]
+      · simp only [Streaming.reset]; exact Better.reset_inv _
+      · simp only [Streaming.reset, chunkRows, List.map_append, List.flatten_append, List.map_cons, List.map_nil,
+          List.flatten_cons, List.flatten_nil, List.append_nil, if_neg hc, List.filterMap_cons, List.filterMap_nil]
+        rw [← hsam, hp]
+
+theorem samples_nil_ref (b : Better) (h : b.samples = []) : b.ref = none := by
+  unfold Better.samples at h
+  cases hr : b.ref with
+  | none => rfl
+  | some r => simp [hr] at h
+
+/-- one `Add` of the wrapped streaming collector, in ghost terms: either nothing is flushed and the
+sample joins the pending ones (or is rejected), or the pending ones are flushed as one chunk and
+the sample starts the next -/
+theorem sadd_ghost (s : Streaming) (cur : List BDoc) (d : BDoc) (hs : s.out.script = []) (hi : s.inner.Inv)
+    (hp : s.inner.samples = cur.map valsOf) :
+    (s.add d).1.out.script = [] ∧ (s.add d).1.inner.Inv ∧
+    ∃ (extra : List (List BDoc)) (cur' : List BDoc),
+      chunkRows (s.add d).1.out = chunkRows s.out ++ extra.map (·.map valsOf) ∧
+      (s.add d).1.inner.samples = cur'.map valsOf ∧
+      ((extra = [] ∧ (cur' = cur ++ [d] ∨ cur' = cur)) ∨
+       (extra = (if cur = [] then [] else [cur]) ∧ cur' = [d])) := by
+  -- the inner `Add` on a collector `b` holding `cur1`
+  have key : ∀ (b : Better) (cur1 : List BDoc), b.Inv → b.samples = cur1.map valsOf →
+      (b.add d).1.Inv ∧
+      (((b.add d).2 = .ok ∧ (b.add d).1.samples = (cur1 ++ [d]).map valsOf) ∨
+       ((b.add d).2 ≠ .ok ∧ (b.add d).1 = b ∧ b.samples ≠ [])) := by
+    intro b cur1 hi1 hp1
+    refine ⟨Better.add_inv _ _ hi1, ?_⟩
+    by_cases hok : (b.add d).2 = .ok
+    · left; refine ⟨hok, ?_⟩
+      rw [Better.add_ok_appends _ _ hok, hp1]; simp [valsOf]
+    · right; refine ⟨hok, Better.add_rejected_noop _ _ hok, ?_⟩
+      intro he
+      have hr := samples_nil_ref _ he
+      simp [Better.add, hr] at hok
+  unfold Streaming.add
+  by_cases hfull : s.count ≥ s.maxSamples
+  · simp only [hfull, if_true]
+    obtain ⟨f1, f2, f3, f4, f5, _⟩ := sflush_ghost s cur hs hi hp
+    simp only [f1, Bool.not_true, Bool.false_eq_true, if_false]
+    obtain ⟨k1, k2⟩ := key (s.flush).1.inner [] f4 (by rw [f3]; rfl)
+    rcases k2 with ⟨hok, hsam⟩ | ⟨_, _, hne⟩
+    · simp only [hok, if_true]
+      refine ⟨f2, k1, (if cur = [] then [] else [cur]), [d], ?_, by simpa using hsam, Or.inr ⟨rfl, rfl⟩⟩
+      show chunkRows (s.flush).1.out = _
+      rw [f5]; by_cases hc : cur = [] <;> simp [hc]
+    · exact absurd f3 hne
+  · simp only [hfull, if_false, Bool.not_true, Bool.false_eq_true]
+    obtain ⟨k1, k2⟩ := key s.inner cur hi hp
+    rcases k2 with ⟨hok, hsam⟩ | ⟨hno, heq, _⟩
+    · simp only [hok, if_true]
+      exact ⟨hs, k1, [], cur ++ [d], by simp, hsam, Or.inl ⟨rfl, Or.inl rfl⟩⟩
+    · have hne : ¬ (SAddResult.inner (s.inner.add d).2 = SAddResult.ok) := by simp
+      simp only [hno, if_false, hne]
+      exact ⟨hs, hi, [], cur, by simp, hp, Or.inl ⟨rfl, Or.inr rfl⟩⟩
+
+theorem oneKey_of_key {c : StreamingDynamic} {cur : List BDoc}
+    (h : cur = [] ∨ ∃ k, c.hash = some k ∧ ∀ d ∈ cur, schemaKey d = k) : OneKey cur := by
+  rcases h with rfl | ⟨k, _, hk⟩
+  · exact ⟨([], 0), by simp⟩
+  · exact ⟨k, hk⟩
+
+/-- one `Add` of the schema-aware streaming collector preserves the ghost invariant -/
+theorem sd_ghost_step (c : StreamingDynamic) (chs : List (List BDoc)) (cur : List BDoc) (d : BDoc)
+    (g : G c chs cur) : ∃ chs' cur', G (c.add d).1 chs' cur' := by
+  -- after an optional flush of the wrapped collector: state `c1` with pending `cur1`, chunks `chs1`
+  have fin : ∀ (c1 : StreamingDynamic) (chs1 : List (List BDoc)) (cur1 : List BDoc),
+      c1.s.out.script = [] → c1.s.inner.Inv → chunkRows c1.s.out = chs1.map (·.map valsOf) →
+      c1.s.inner.samples = cur1.map valsOf → (∀ ch ∈ chs1, OneKey ch) → OneKey cur1 →
+      (∀ x ∈ cur1, schemaKey x = schemaKey d) →
+      ∃ chs' cur', G ({ s := (c1.s.add d).1, hash := some (schemaKey d) } : StreamingDynamic) chs' cur' := by
+    intro c1 chs1 cur1 hs hi hw hp hone honecur hk
+    obtain ⟨a1, a2, extra, cur', a3, a4, a5⟩ := sadd_ghost c1.s cur1 d hs hi hp
+    refine ⟨chs1 ++ extra, cur', ⟨a1, by rw [a3, hw]; simp, a4, ?_, ?_, by intro h; simp at h, a2⟩⟩
+    · intro ch hch
+      rcases List.mem_append.1 hch with h | h
+      · exact hone ch h
+      · rcases a5 with ⟨e, _⟩ | ⟨e, _⟩
+        · rw [e] at h; simp at h
+        · rw [e] at h
+          by_cases hc : cur1 = []
+          · simp [hc] at h
+          · simp [hc] at h; rw [h]; exact honecur
+    · right
+      refine ⟨schemaKey d, rfl, ?_⟩
+      intro x hx
+      rcases a5 with ⟨_, e | e⟩ | ⟨_, e⟩
+      · rw [e] at hx
+        rcases List.mem_append.1 hx with h | h
+        · exact hk x h
+        · simp at h; rw [h]
+      · rw [e] at hx; exact hk x hx
+      · rw [e] at hx; simp at hx; rw [hx]
+  -- the flush of the schema-aware collector, in ghost terms
+  have fl : (c.flush).1.s.out.script = [] ∧ (c.flush).1.s.inner.Inv ∧ (c.flush).1.s.inner.samples = [] ∧
+      chunkRows (c.flush).1.s.out = (chs ++ (if cur = [] then [] else [cur])).map (·.map valsOf) ∧ (c.flush).2 = true := by
+    obtain ⟨f1, f2, f3, f4, f5, _⟩ := sflush_ghost c.s cur g.script g.inv g.pending
+    have hsame : (c.flush).1.s = (c.s.flush).1 := by
+      unfold StreamingDynamic.flush
+      cases hf : c.s.flush with
+      | mk s' ok => simp only []; split <;> rfl
+    have hok : (c.flush).2 = true := by
+      unfold StreamingDynamic.flush
+      cases hf : c.s.flush with
+      | mk s' ok =>
+        rw [hf] at f1
+        simp only [] at f1 ⊢
+        split
+        · rfl
+        · exact f1
+    rw [hsame]
+    refine ⟨f2, f4, f3, ?_, hok⟩
+    rw [f5, g.written]; by_cases hc : cur = [] <;> simp [hc]
+  have honecur := oneKey_of_key g.key
+  have hchs' : ∀ ch ∈ chs ++ (if cur = [] then [] else [cur]), OneKey ch := by
+    intro ch hch
+    rcases List.mem_append.1 hch with h | h
+    · exact g.one ch h
+    · by_cases hc : cur = []
+      · simp [hc] at h
+      · simp [hc] at h; rw [h]; exact honecur
+  unfold StreamingDynamic.add
+  cases hh : c.hash with
+  | none =>
+    have hcur : cur = [] := g.nohash hh
+    dsimp only
+    by_cases hc : c.s.count > 0
+    · rw [if_pos hc]
+      obtain ⟨f1, f2, f3, f4, f5⟩ := fl
+      simp only [f5, Bool.not_true, Bool.false_eq_true, if_false]
+      exact fin (c.flush).1 _ [] f1 f2 f4 (by rw [f3]; rfl) hchs' ⟨([], 0), by simp⟩ (by simp)
+    · rw [if_neg hc]
+      simp only [Bool.not_true, Bool.false_eq_true, if_false]
+      exact fin c chs cur g.script g.inv g.written g.pending g.one honecur (by rw [hcur]; simp)
+  | some hsh =>
+    dsimp only
+    by_cases hc : hsh ≠ schemaKey d
+    · rw [if_pos hc]
+      obtain ⟨f1, f2, f3, f4, f5⟩ := fl
+      simp only [f5, Bool.not_true, Bool.false_eq_true, if_false]
+      exact fin (c.flush).1 _ [] f1 f2 f4 (by rw [f3]; rfl) hchs' ⟨([], 0), by simp⟩ (by simp)
+    · rw [if_neg hc]
+      simp only [Bool.not_true, Bool.false_eq_true, if_false]
+      have hk : ∀ x ∈ cur, schemaKey x = schemaKey d := by
+        have he : hsh = schemaKey d := by simpa using hc
+        rcases g.key with e | ⟨k, hk1, hk2⟩
+        · rw [e]; simp
+        · rw [hh] at hk1
+          simp only [Option.some.injEq] at hk1
+          intro x hx; rw [hk2 x hx, ← hk1, he]
+      exact fin c chs cur g.script g.inv g.written g.pending g.one honecur hk
+
+/-- **Over every history of `Add`s (any schemas, any order, over a writer that accepts every write)
+no chunk the schema-aware streaming collector writes mixes two schemas**: the written chunks are
+the value rows of lists of documents that each have one schema key, and the pending samples belong to
+documents that all have the collector's current key. -/
+theorem streaming_dynamic_chunks_have_one_schema (n : Nat) (ds : List BDoc) :
+    ∃ (chs : List (List BDoc)) (cur : List BDoc),
+      let c := ds.foldl (fun (c : StreamingDynamic) d => (c.add d).1) (StreamingDynamic.new n)
+      chunkRows c.s.out = chs.map (·.map valsOf) ∧ c.s.inner.samples = cur.map valsOf ∧
+      (∀ ch ∈ chs, OneKey ch) ∧ OneKey cur := by
+  have : ∀ (ds : List BDoc) (c : StreamingDynamic) (chs : List (List BDoc)) (cur : List BDoc), G c chs cur →
+      ∃ chs' cur', G (ds.foldl (fun (c : StreamingDynamic) d => (c.add d).1) c) chs' cur' := by
+    intro ds
+    induction ds with
+    | nil => intro c chs cur g; exact ⟨chs, cur, g⟩
+    | cons d ds ih =>
+      intro c chs cur g
+      obtain ⟨chs', cur', g'⟩ := sd_ghost_step c chs cur d g
+      exact ih _ chs' cur' g'
+  have g0 : G (StreamingDynamic.new n) [] [] :=
+    ⟨rfl, by simp [chunkRows, StreamingDynamic.new, Streaming.new],
+     by simp [StreamingDynamic.new, Streaming.new, Better.samples], by simp, Or.inl rfl, fun _ => rfl,
+     by simp [StreamingDynamic.new, Streaming.new, Better.Inv]⟩
+  obtain ⟨chs, cur, g⟩ := this ds _ [] [] g0
+  exact ⟨chs, cur, g.written, g.pending, g.one, oneKey_of_key g.key⟩
+
 /-! non-vacuity -/
 example : NulFree (.cons [97] (.doc (.cons [98] (.int64 1#64) .nil)) (.cons [99] (.int64 2#64) .nil)) := by
   simp [NulFree, NulFreeVal]
